@@ -23,6 +23,7 @@ type HarnessRun struct {
 	MaxPaths int            `json:"max_paths,omitempty"` // path budget (same)
 	Bounds   string         `json:"bounds,omitempty"`    // human-readable statement of the bounds of this run
 	Race     bool           `json:"race,omitempty"`      // monitor findings of this run are confirmed with a -race build
+	SolverMs int            `json:"solver_ms,omitempty"` // per-query solver time limit for this run (default 10000)
 }
 
 type PropPlan struct {
@@ -276,7 +277,9 @@ func cmdRun(args []string) int {
 			params[k] = v
 		}
 		params["seed"] = int(seed)
+		setSolverTimeout(hr.SolverMs)
 		r, err := prog.explore(hr.Entry, params, known, budget, hr.MaxPaths, se)
+		setSolverTimeout(0)
 		if err != nil {
 			fmt.Println("ERROR:", err)
 			return 2
